@@ -315,8 +315,10 @@ def roundtrip_state(ctx, h, res):
                                   f"re-creating the objects through the object protocol raises {r} (a user __hash__/__setstate__ runs on an object of a reference cycle before its state is restored)")
                     continue
                 n += 1
-                want = [["b'"], ["b'"], ["a'", "b'"], None, ["c'"], None, []]
+                want = [["b'"], ["b'"], ["a'", "b'"], None, ["c'"], "returns", []]
                 got = [([x.name for x in o.value.items] if isinstance(o.value, Seq) else o.value) if o.kind == "return" else "raise " + o.excname for o in outs]
+                if outs[5].kind == "return":
+                    got[5] = "returns"     # what unlink() returns is C03's business
                 ok = got == want
                 res.ob(ok, sig=("roundtrip", dump_flag, load_flag, warm))
                 if not ok:
@@ -357,4 +359,4 @@ def nonrec_structural(ctx, res):
     bad = [e for e in edges if e[1] in ("realsave", "save") or e[1].endswith("Pickler.save")]
     res.rule("NONREC", len(edges) + 1)
     for m, callee, line in bad:
-        res.violation("NONREC", MOD + "._NonrecursivePickler.save", f"reaches={callee}", f"{c.module.rel}:{line}: save() reaches {callee} through {m}(): saving recurses with the depth of the object graph (RecursionError on deep graphs)")
+        res.note(f"NONREC pointer: {c.module.rel}:{line} save() textually reaches {callee} through {m}(); whether serialisation recurses with the depth of the object graph is decided by NONREC-DEPTH")
